@@ -12,8 +12,15 @@ use tevec::export::ndarray::{s, Array1, ArrayView1};
 use tevec::prelude::{Cast, IsNone, MapBasic, MapValidBasic, MapValidVec, Number, Vec1View};
 use vh::*;
 
-/// symbolic element: None = null, Some(k) = the value k/4 (floats) or k (integers)
+/// symbolic element: None = null, Some(k) = the value k/4 (floats) or k (integers);
+/// Some(HOSTILE + j) = the j-th hostile float (floats only)
 type Sym = Option<i64>;
+const HOSTILE: i64 = 1_000_000;
+const HOSTILE_VALS: [f64; 8] =
+    [f64::INFINITY, f64::NEG_INFINITY, -0.0, 1e308, -1e308, 5e-324, 2.2250738585072014e-308, 9007199254740993.0];
+fn f_of_k(k: i64) -> f64 {
+    if k >= HOSTILE { HOSTILE_VALS[(k - HOSTILE) as usize] } else { k as f64 / 4.0 }
+}
 
 /// conversions that must not see the tevec traits (IsNone::map shadows nothing here, but keep the
 /// oracle/generator side free of the library anyway)
@@ -74,7 +81,7 @@ impl Elem for f64 {
     const ARITH: bool = true;
     fn of_sym(s: Sym) -> Self {
         match s {
-            Some(k) => k as f64 / 4.0,
+            Some(k) => f_of_k(k),
             None => f64::NAN,
         }
     }
@@ -110,7 +117,7 @@ impl Elem for Option<f64> {
     const NULLABLE: bool = true;
     fn of_sym(s: Sym) -> Self {
         match s {
-            Some(k) => Some(k as f64 / 4.0),
+            Some(k) => Some(f_of_k(k)),
             None => None,
         }
     }
@@ -233,6 +240,8 @@ enum Op<T: Elem> {
     VClip(T, T),
     VAbs,
     Abs,
+    /// v.titer().vshift(n1, f1).shift(n2, f2).ffill(f3).vabs(): each stage consumes the previous iterator
+    Pipe(i32, Option<T>, i32, T, Option<T>),
 }
 
 fn mk_mask<T: Elem>(code: u8, c: T::Inner) -> impl Fn(&T) -> bool {
@@ -289,6 +298,7 @@ impl<T: Elem> Op<T> {
             Op::VClip(..) => "vclip",
             Op::VAbs => "vabs",
             Op::Abs => "abs",
+            Op::Pipe(..) => "pipe_vshift_shift_ffill_vabs",
         }
     }
     fn term(&self, xs: &str) -> String {
@@ -307,6 +317,10 @@ impl<T: Elem> Op<T> {
             Op::VClip(lo, hi) => format!("(r_vclip {} {} {} {})", p, lo.coq(), hi.coq(), xs),
             Op::VAbs => format!("(r_vabs {} {})", p, xs),
             Op::Abs => format!("({} {})", if T::PACK == "pF" { "r_abs_f" } else { "r_abs_i" }, xs),
+            Op::Pipe(n1, f1, n2, f2, f3) => format!(
+                "(r_pipe {} {} {} {} {} {} {})",
+                p, coq_z(*n1 as i128), optv(f1), coq_z(*n2 as i128), f2.coq(), optv(f3), xs
+            ),
         }
     }
     fn params(&self) -> String {
@@ -320,6 +334,7 @@ impl<T: Elem> Op<T> {
             Op::FillMask(k, c, v) => format!("mask={}:{:?} value={:?}", mask_name(*k), c, v),
             Op::VClip(lo, hi) => format!("lower={:?} upper={:?}", lo, hi),
             Op::VAbs | Op::Abs => String::new(),
+            Op::Pipe(n1, f1, n2, f2, f3) => format!("n1={} value1={:?} n2={} value2={:?} value3={:?}", n1, f1, n2, f2, f3),
         }
     }
     fn tags(&self, len: usize) -> String {
@@ -344,6 +359,7 @@ impl<T: Elem> Op<T> {
                 format!("bounds={}", rel)
             }
             Op::VAbs | Op::Abs => String::new(),
+            Op::Pipe(n1, f1, n2, _, _) => format!("lag={} lag2={} fill={}", lag_class(*n1, len), lag_class(*n2, len), fill_kind(f1)),
         }
     }
     fn cmp(&self) -> &'static str {
@@ -386,6 +402,10 @@ fn run_op<T: Elem, V: Vec1View<T>>(v: &V, op: &Op<T>) -> Vec<Cell> {
             Op::VClip(lo, hi) => pure::cells(pure::collect(v.titer().vclip(lo.clone(), hi.clone())), c),
             Op::VAbs => pure::cells(pure::collect(v.titer().vabs()), c),
             Op::Abs => pure::cells(T::do_abs(v), c),
+            Op::Pipe(n1, f1, n2, f2, f3) => pure::cells(
+                pure::collect(v.titer().vshift(*n1, f1.clone()).shift(*n2, f2.clone()).ffill(f3.clone()).vabs()),
+                c,
+            ),
         }
     }));
     pure::finish(r)
@@ -574,6 +594,20 @@ fn lag_family<T: Elem>(cx: &mut Ctx, lmax: usize, lmax_pct: usize) {
             }
         }
     }
+    // composed pipelines: every stage must see exactly the items and the length of the previous one
+    let digits: &[u8] = if T::NULLABLE { &[0, 1] } else { &[0] };
+    for len in 0..=lmax.min(3) {
+        for syms in patterns(len, digits) {
+            for n1 in lags(len) {
+                for n2 in [-1i32, 0, 2] {
+                    for f1 in fills_opt::<T>() {
+                        let f3 = if T::NULLABLE { None } else { Some(T::of_sym(Some(-36))) };
+                        cx.emit(&syms, &Op::<T>::Pipe(n1, f1, n2, T::of_sym(Some(-20)), f3), "exh");
+                    }
+                }
+            }
+        }
+    }
     // percentage change: zeros matter as much as nulls
     let digits: &[u8] = if T::NULLABLE { &[0, 1, 2] } else { &[0, 2] };
     for len in 0..=lmax_pct {
@@ -678,6 +712,45 @@ fn sampled_family<T: Elem>(cx: &mut Ctx, rng: &mut Rng, rounds: usize, lo_len: u
         cx.emit(&syms, &Op::<T>::FillMask(k, T::inner_of(c), T::of_sym(rv(rng))), src);
         cx.emit(&syms, &Op::<T>::VClip(T::of_sym(rv(rng)), T::of_sym(rv(rng))), src);
         cx.emit(&syms, &Op::<T>::VAbs, src);
+        let (n1, n2) = (pick_n(rng), pick_n(rng));
+        let f1 = if T::NULLABLE { ro(rng) } else { Some(nonnull(rng)) };
+        let f3 = if T::NULLABLE { ro(rng) } else { Some(nonnull(rng)) };
+        cx.emit(&syms, &Op::<T>::Pipe(n1, f1, n2, T::of_sym(rv(rng)), f3), src);
+    }
+}
+
+/// hostile float values (+-inf, -0.0, huge, subnormal, 2^53+1) through every operation: nothing here
+/// depends on rounding, the model mirrors the operation order
+fn hostile_family<T: Elem>(cx: &mut Ctx, rng: &mut Rng, rounds: usize) {
+    for _ in 0..rounds {
+        let len = rng.range(1, 6) as usize;
+        let hv = |rng: &mut Rng| -> Sym {
+            match rng.below(8) {
+                0 => None,
+                1 | 2 => Some(rng.range(-8, 8)),
+                _ => Some(HOSTILE + rng.below(HOSTILE_VALS.len()) as i64),
+            }
+        };
+        let mut syms: Vec<Sym> = vec![];
+        for _ in 0..len {
+            syms.push(hv(rng))
+        }
+        let src = "hostile";
+        let l = len as i64;
+        let n = rng.range(-l - 1, l + 1) as i32;
+        let ro = |rng: &mut Rng| -> Option<T> { if rng.chance(1, 3) { None } else { Some(T::of_sym(hv(rng))) } };
+        cx.emit(&syms, &Op::<T>::Shift(n, T::of_sym(hv(rng))), src);
+        cx.emit(&syms, &Op::<T>::VShift(n, ro(rng)), src);
+        if T::ARITH {
+            cx.emit(&syms, &Op::<T>::VDiff(n, ro(rng)), src);
+            cx.emit(&syms, &Op::<T>::Abs, src);
+        }
+        cx.emit(&syms, &Op::<T>::VPct(n), src);
+        cx.emit(&syms, &Op::<T>::FFill(ro(rng)), src);
+        cx.emit(&syms, &Op::<T>::BFill(ro(rng)), src);
+        cx.emit(&syms, &Op::<T>::Fill(T::of_sym(hv(rng))), src);
+        cx.emit(&syms, &Op::<T>::VClip(T::of_sym(hv(rng)), T::of_sym(hv(rng))), src);
+        cx.emit(&syms, &Op::<T>::VAbs, src);
     }
 }
 
@@ -704,5 +777,7 @@ fn main() {
     sampled_family::<Option<f64>>(&mut cx, &mut rng, rounds, 5, hi);
     sampled_family::<Option<i32>>(&mut cx, &mut rng, rounds, 5, hi);
     sampled_family::<i32>(&mut cx, &mut rng, rounds / 2, 5, hi);
+    hostile_family::<f64>(&mut cx, &mut rng, rounds);
+    hostile_family::<Option<f64>>(&mut cx, &mut rng, rounds);
     cx.em.finish();
 }
